@@ -141,11 +141,9 @@ func (c *Ctx) kindFilterScans(r *Result, rule string, fns []*ssa.Function, floor
 			if !elementOfIteration(elem, loop, 0) {
 				continue
 			}
-			// a field of the element, not the element of a byte slice
-			if _, isIdx := stripConv(elem).(*ssa.UnOp); isIdx {
-				if _, direct := stripConv(elem).(*ssa.UnOp).X.(*ssa.IndexAddr); direct {
-					continue
-				}
+			// a field of the element, not the element of a byte slice or string; and not the loop's own condition
+			if !throughField(elem, 0) || b == hdr {
+				continue
 			}
 			other := b.Succs[1]
 			if bo.Op == token.NEQ {
@@ -937,4 +935,27 @@ func init() {
 	share("C13", "C13.10", "C13.11", "the chunk writer and the chunk index", pre("hdf5.DatasetWriter.writeChunk", "hdf5.expandEdgeChunk", "hdf5.DatasetWriter.Resize", "structures.ChunkBTree", "structures.serializeChunkBTreeNode", "writer.Chunk", "hdf5.ChunkCoordinator", "writer.ChunkCoordinator"))
 	share("C14", "C14.10", "C14.11", "the writable name index (B-tree v2)", pre("structures.WritableBTreeV2", "structures.insertRecordSorted", "structures.jenkinsHash"))
 	share("C15", "", "C15.9", "the writable fractal heap", pre("structures.WritableFractalHeap", "structures.WritableIndirectBlock", "structures.WritableDirectBlock"))
+}
+
+func init() {
+	registry["C03"].Meta.Rules["C03.13"] = "a search visits every candidate: in every loop of the module that filters the elements it visits by a kind or type field, an element of another kind is skipped and the scan goes on; a break there ends the search at the first other element and what lies behind it (a link, a message) is reported as absent (C02.10 over the whole module)"
+	registry["C03"].Rules = append(registry["C03"].Rules, func(c *Ctx, r *Result) { c.kindFilterScans(r, "C03.13", c.LibFuncs(), 40) })
+}
+
+// throughField: the value is read through a struct field (e.Kind, e.Type, p.hdr.ID), not directly out of an indexed sequence.
+func throughField(v ssa.Value, d int) bool {
+	if d > 8 {
+		return false
+	}
+	switch x := v.(type) {
+	case *ssa.Field, *ssa.FieldAddr:
+		return true
+	case *ssa.UnOp:
+		return throughField(x.X, d+1)
+	case *ssa.Convert:
+		return throughField(x.X, d+1)
+	case *ssa.ChangeType:
+		return throughField(x.X, d+1)
+	}
+	return false
 }
